@@ -252,9 +252,24 @@ def rule_r3(rep, repo, classes):
                 if not (isinstance(st, ast.Assign) and isinstance(st.value, ast.Name) and st.value.id == val):
                     continue  # only the store of the new value itself
                 nb += 1
+                new_s, old_s = f"{val}.shape", f"self.{w}.shape"
                 guard = any(isinstance(x, ast.If) and x.lineno < st.lineno
-                            and norm(x.test) in (f"{val}.shape != self.{w}.shape", f"self.{w}.shape != {val}.shape")
-                            and any(isinstance(b, ast.Raise) for b in x.body) for x in ast.walk(sf.node))
+                            and _rejects_unequal(x, new_s, old_s) for x in ast.walk(sf.node))
+                if not guard:
+                    # the comparison may live in a helper: self._check(..., value.shape, self._w.shape)
+                    for x in strip_docstring(sf.node.body):
+                        if isinstance(x, ast.Expr) and isinstance(x.value, ast.Call) and x.lineno < st.lineno and \
+                                isinstance(x.value.func, ast.Attribute) and norm(x.value.func.value) in ("self", k, "type(self)"):
+                            h = repo.resolve_method(k, x.value.func.attr)
+                            if h is None:
+                                continue
+                            hp = [p_ for p_ in h.params if not (p_ in ("self", "cls") and h.params.index(p_) == 0)]
+                            amap = {norm(a_): p_ for a_, p_ in zip(x.value.args, hp)}
+                            if new_s in amap and old_s in amap:
+                                hb = strip_docstring(h.node.body)
+                                for i_, y in enumerate(hb):
+                                    if isinstance(y, ast.If) and _rejects_unequal(y, amap[new_s], amap[old_s], rest=hb[i_ + 1:]):
+                                        guard = True
                 if guard:
                     rep.ok("R3b.setter-keeps-shape", f"{sf.qual}:{w}", repo.rel(sf.module, st),
                            "re-assignment rejected unless the shape is unchanged")
@@ -264,6 +279,29 @@ def rule_r3(rep, repo, classes):
                                   f"one: size-dependent state (index tables, neighbour tree shape) goes stale",
                                   repo.rel(sf.module, st))
     rep.floor("property setters writing fields", nb, 2)
+
+
+def _rejects_unequal(if_node, a, b, rest=()):
+    """`if a != b: raise` (either order, or `not a == b`), or `if a == b: return` followed by an
+    unconditional raise."""
+    t = if_node.test
+    if isinstance(t, ast.UnaryOp) and isinstance(t.op, ast.Not) and isinstance(t.operand, ast.Compare):
+        inner, neg = t.operand, True
+    else:
+        inner, neg = t, False
+    if not (isinstance(inner, ast.Compare) and len(inner.ops) == 1 and
+            {norm(inner.left), norm(inner.comparators[0])} == {a, b}):
+        return False
+    is_ne = isinstance(inner.ops[0], ast.NotEq) != neg if isinstance(inner.ops[0], (ast.Eq, ast.NotEq)) else None
+    if is_ne is None:
+        return False
+    if is_ne:
+        return bool(if_node.body) and isinstance(if_node.body[-1], ast.Raise)
+    # equal -> return; anything else raises
+    if if_node.orelse and isinstance(if_node.orelse[-1], ast.Raise):
+        return True
+    return bool(if_node.body) and isinstance(if_node.body[-1], ast.Return) and not if_node.orelse and \
+        bool(rest) and isinstance(rest[0], ast.Raise)
 
 
 def _guarded_nonempty(fn_node, name, use_node):
@@ -374,14 +412,47 @@ def rule_r5_r6(rep, repo, classes):
                     if any(derives(v, base_names, seen) for v in defs[n.id]):
                         return True
             return False
+        # the same question on value graphs (private helpers such as `self._take(index)` inlined)
+        from gridlint import e5
+        gv = e5.VG(repo, k, g.node, inline=True)
+        try:
+            gv.run(strip_docstring(g.node.body))
+        except Exception:  # noqa: BLE001 - the syntactic answer below still stands
+            gv = None
+
+        def vg_derives(t, fields):
+            if isinstance(t, tuple):
+                if len(t) == 3 and t[0] == "sub" and t[1] in [("attr", ("sym", "self"), f_) for f_ in fields] and \
+                        e5._contains(("x", t[2]), lambda z: z == ("sym", idx)):
+                    return True
+                return any(vg_derives(x, fields) for x in t)
+            return False
         for c in ctor_calls:
             pos = list(c.args)
             kws = {kw.arg: kw.value for kw in c.keywords}
-            a_pts = kws.get("points", pos[0] if pos else None)
-            a_wts = kws.get("weights", pos[1] if len(pos) > 1 else None)
-            okp = a_pts is not None and derives(a_pts, ("self.points", "self._points"))
-            okw = a_wts is not None and derives(a_wts, ("self.weights", "self._weights"))
-            rest = [norm(a) for a in pos[2:]] + [norm(v) for k_, v in kws.items() if k_ not in ("points", "weights")]
+            if gv is not None and any(isinstance(a, ast.Starred) for a in pos):
+                # Cls(*helper(index)): positional arguments are the elements of the returned tuple
+                flat = []
+                for a in pos:
+                    v = gv.ev(a)
+                    if v[0] == "star" and v[1][0] in ("tuple", "list"):
+                        flat += list(v[1][1])
+                    elif v[0] == "star":
+                        raise AnalysisError(f"unrecognised idiom: {g.qual} passes `*{norm(a.value)[:40]}` to the constructor")
+                    else:
+                        flat.append(v)
+                okp = len(flat) > 0 and vg_derives(flat[0], ("points", "_points"))
+                okw = len(flat) > 1 and vg_derives(flat[1], ("weights", "_weights"))
+                rest = [e5.show(v, 60) for v in flat[2:]] + [norm(v) for k_, v in kws.items() if k_ not in ("points", "weights")]
+                a_pts = a_wts = None
+            else:
+                a_pts = kws.get("points", pos[0] if pos else None)
+                a_wts = kws.get("weights", pos[1] if len(pos) > 1 else None)
+                okp = a_pts is not None and (derives(a_pts, ("self.points", "self._points")) or
+                                             (gv is not None and vg_derives(gv.ev(a_pts), ("points", "_points"))))
+                okw = a_wts is not None and (derives(a_wts, ("self.weights", "self._weights")) or
+                                             (gv is not None and vg_derives(gv.ev(a_wts), ("weights", "_weights"))))
+                rest = [norm(a) for a in pos[2:]] + [norm(v) for k_, v in kws.items() if k_ not in ("points", "weights")]
             miss = [p for p, w in stored if p not in ("points", "weights")
                     and not any(a in (f"self.{w}", f"self.{w.lstrip('_')}") for a in rest)]
             if okp and okw and not miss:
